@@ -9,6 +9,25 @@ from sa.report import AnalysisError
 from sa.srcmodel import unparse, walk_no_nested, dotted, calls_in
 
 
+_MULT = {}
+
+
+def has_mult(repo, text):
+    """does the text mention the repeat-count reader of ThetaRecord (`_multiple` on the confirmed tree; its present name when
+    it was renamed, sa/renames.py) or the grammar node it reads"""
+    if 'names' not in _MULT or _MULT.get('repo') is not repo:
+        nm = {'_multiple'}
+        try:
+            cls = repo.module('pharmpy.model.external.nonmem.records.theta_record').classes.get('ThetaRecord')
+            f = cls.methods.get('_multiple') if cls is not None else None
+            if f is not None:
+                nm.add(f.name)
+        except Exception:
+            pass
+        _MULT['names'], _MULT['repo'] = nm, repo
+    return any(n in text for n in _MULT['names']) or "subtree('n')" in text
+
+
 def _yield_op(stmts):
     for s_ in stmts:
         for n in ast.walk(s_):
@@ -482,7 +501,7 @@ def theta_cursor(chk, rule, repo):
                   and c.args and any(isinstance(x, ast.Name) and x.id == plist for x in ast.walk(c.args[0]))]
     one_by_one += [l_ for fn_ in scope for l_ in ast.walk(fn_) if isinstance(l_, ast.For)
                    and any(isinstance(x, ast.Name) and x.id == plist for x in ast.walk(l_.iter))
-                   and not any(isinstance(c, ast.Call) and 'multiple' in (dotted(c.func) or '') for c in ast.walk(l_))]
+                   and not any(isinstance(c, ast.Call) and has_mult(repo, dotted(c.func) or '') for c in ast.walk(l_))]
     if not uses and not one_by_one:
         raise AnalysisError('ThetaRecord.update: consumption of the parameters not recognised')
     ok = False
@@ -498,7 +517,7 @@ def theta_cursor(chk, rule, repo):
                     for nm_ in names_:
                         calls_ |= calls_behind(fn_, nm_)
                     desc = f'{unparse(u)} with {unparse(a)}'
-                    if any('multiple' in c for c in calls_):
+                    if any(has_mult(repo, c) for c in calls_):
                         ok = True
     chk.instance(rule, f'ThetaRecord.update: {desc}: advances by the repeat count: {ok}')
     if not ok:
@@ -692,7 +711,7 @@ def run_p17_p18(chk, repo):
     # the code that rewrites one theta may be the method, a closure of it, a private method or a module-level function
     for f in list(dict.values(tm.functions)):
         mult = {a.targets[0].id for a in ast.walk(f.node) if isinstance(a, ast.Assign) and isinstance(a.targets[0], ast.Name)
-                and ('multiple' in unparse(a.value) or "subtree('n')" in unparse(a.value))}
+                and has_mult(repo, unparse(a.value))}
         calls = [c for c in calls_in(f.node) if dotted(c.func) == 'remove_parentheses'
                  and not any(c is x for g_ in ast.walk(f.node) if isinstance(g_, ast.FunctionDef) and g_ is not f.node
                              for x in ast.walk(g_))]
